@@ -500,6 +500,35 @@ func genC16(r *simrt.Rand, tier string) any {
 			}
 		}
 	}
+	if r.Pct(12) {
+		// crossed-policies motif: the policy before admits the clients but is read-only, the one after is
+		// writable but excludes them (or the other way round). A request that is checked against one of them
+		// and carried out under the other is explained by neither - the clients keep sending mutating calls
+		// with no pause right across the update, no stalls, so that the update completes inside the few
+		// statements between a request's checks
+		a := PolSpec{Allowed: []string{"10.0.0.0/24"}, ReadOnly: true}
+		b := PolSpec{Allowed: []string{"192.168.0.0/16"}}
+		if r.Pct(40) {
+			a, b = PolSpec{Allowed: []string{"192.168.0.0/16"}, ReadOnly: true}, PolSpec{Allowed: []string{"10.0.0.0/24"}}
+		}
+		sc.Init, sc.Stalls = a, nil
+		sc.Sched.Mask |= simrt.ClassUnlock
+		sc.Clients = nil
+		for c, nc := 0, 2+r.Int(2); c < nc; c++ {
+			cl := C16Client{Addr: []string{"10.0.0.7:900", "10.0.0.9:50000", "10.0.0.7:901"}[c], StartUs: 0}
+			for i, n := 0, 8+r.Int(10); i < n; i++ {
+				cl.Ops = append(cl.Ops, C16Op{Op: []string{"WRITE", "CREATE", "REMOVE", "WRITE"}[r.Int(4)], PauseUs: []int{0, 0, 10, 100}[r.Int(4)], Name: fmt.Sprintf("n%d", r.Int(4))})
+			}
+			sc.Clients = append(sc.Clients, cl)
+		}
+		// the policy flips back and forth 2-10 times: every flip is one more chance to land inside a request
+		sc.Admin = nil
+		at := []int{300, 1000, 3000}[r.Int(3)]
+		for k, nk := 0, 2+r.Int(9); k < nk; k++ {
+			sc.Admin = append(sc.Admin, C16Admin{AtUs: at, Pol: map[bool]PolSpec{true: b, false: a}[k%2 == 0], ViaExport: r.Pct(20)})
+			at += []int{150, 400, 1000, 2500}[r.Int(4)]
+		}
+	}
 	return sc
 }
 
@@ -553,7 +582,7 @@ func shrinkC16(scAny any) []any {
 
 func init() {
 	Register(&Prop{ID: "C16", Level: "exploration", Race: true,
-		Rule: "one case = 2-4 clients on their own connections (opened before or after updates, from addresses inside/outside the allow-lists and ports either side of 1024) issuing 2-8 of NULL/GETATTR/LOOKUP/READ/WRITE/CREATE/REMOVE/3-call bursts with pauses, an admin issuing 1-3 UpdatePolicyOptions/UpdateExportOptions with drawn ReadOnly/AllowedIPs/Secure/rate-limiting values (a quarter of the updates change only MaxFileSize, which no request of the workload is refused for) at drawn instants, 0-3 backend calls stalled for 1 ms-40 s (shorter and longer than the request timeout), 1-3 workers, every lock/channel/select/network/backend interleaving decided by the seeded scheduler, also built with -race; monitors: (I1) all backend calls of one request goroutine saw one live policy pointer, (I2) when an update returns no backend call begun under an older policy is in progress, (I3) each reply is the verdict of a policy that was possibly in force between send and receive (ROFS, MSG_DENIED for excluded address/port, rate limiting incl. on connections opened before the update), (I4) drain-window replies are counted (their shape is C14's business), (I5) the update returns once stalls end (bounded liveness by quiescence), no panic; non-trivial = a request hit the drain window AND an update was issued while a backend call was parked; distinct by event digest",
+		Rule: "one case = 2-4 clients on their own connections (opened before or after updates, from addresses inside/outside the allow-lists and ports either side of 1024) issuing 2-8 of NULL/GETATTR/LOOKUP/READ/WRITE/CREATE/REMOVE/3-call bursts with pauses, an admin issuing 1-3 UpdatePolicyOptions/UpdateExportOptions with drawn ReadOnly/AllowedIPs/Secure/rate-limiting values (a quarter of the updates change only MaxFileSize, which no request of the workload is refused for) at drawn instants, 0-3 backend calls stalled for 1 ms-40 s (shorter and longer than the request timeout), 1-3 workers, every lock/channel/select/network/backend interleaving decided by the seeded scheduler, also built with -race; monitors: (I1) all backend calls of one request goroutine saw one live policy pointer, (I2) when an update returns no backend call begun under an older policy is in progress, (I3) each reply is the verdict of a policy that was possibly in force between send and receive (ROFS, MSG_DENIED for excluded address/port, rate limiting incl. on connections opened before the update), (I4) drain-window replies are counted (their shape is C14's business), (I5) the update returns once stalls end (bounded liveness by quiescence), no panic; 12% of the cases are the crossed-policies motif (the policy before admits the clients but is read-only, the one after is writable but excludes them, flipping 2-10 times 150 us-2.5 ms apart while 2-3 clients send mutating calls without pause): an outcome explained by neither policy is a request checked against one and carried out under the other; non-trivial = a request hit the drain window AND an update was issued while a backend call was parked; distinct by event digest",
 		Gen:  genC16, New: func() any { return &C16Scn{} }, Run: runC16, Shrink: shrinkC16,
 		Real:    []string{"UpdatePolicyOptions", "UpdateExportOptions", "HandleCall (TryRLock admission, per-request goroutine, timeout)", "connection loop incl. rate limiting", "worker pool", "all procedure handlers"},
 		Stubbed: seqStubbed})
